@@ -74,6 +74,52 @@ Theorem C04_catch_all_insufficient :
 Proof. vm_compute. reflexivity. Qed.
 Print Assumptions C04_catch_all_insufficient.
 
+(* Frames that are NOT JSON objects.  serde's derived visitors also accept sequence forms, so the
+   untagged decode of receive_reply as of 4eaac7f classifies some arrays: the property's "exactly
+   when it carries an `error` member" fails in the only-if direction (open finding
+   C04.non_object_frame; witnesses below).  receive_reply_model true is the code with
+   work/c04-array-fix.diff applied; which of the two models the tree under test follows is read
+   off read_connection.rs by the check on every run. *)
+Theorem C04_non_object_frame_refuted :
+  receive_reply_model false E_simple P_strict (JArr [JStr "org.example.E.Busy"; JNull])
+    = MethodError (RVar 1 []) /\
+  receive_reply_model false E_simple P_strict (JArr [JNum 1; JNull]) = MethodError (RVar 1 []) /\
+  receive_reply_model false E_simple P_strict
+    (JArr [JStr "org.varlink.service.PermissionDenied"; JNull]) = VarlinkError (RVar 4 []) /\
+  receive_reply_model false E_simple P_strict (JArr [JObj [("id", JNum 1); ("name", JStr "n")]; JBool true])
+    = Success (RStruct [RSome (RStruct [RInt 1; RStr "n"]); RSome (RBool true)]) /\
+  receive_reply_model false E_simple P_strict (JArr [JObj [("id", JNum 1); ("name", JStr "n")]])
+    = DecodeError /\
+  proxy_model false true E_simple P_unit (JArr [JNull; JBool true]) = POk RUnit.
+Proof. repeat split; vm_compute; reflexivity. Qed.
+Print Assumptions C04_non_object_frame_refuted.
+
+(* With the repair: every frame that is not an object is a decode error (receive_reply and proxy
+   methods), object frames are classified exactly as before ... *)
+Theorem C04_non_object_decode_error :
+  forall E P v, is_object v = false ->
+  receive_reply_model true E P v = DecodeError /\
+  forall unit_out, proxy_model true unit_out E P v = PDecode.
+Proof. exact non_object_decode_error. Qed.
+Print Assumptions C04_non_object_decode_error.
+
+Theorem C04_object_frames_unchanged :
+  forall b E P ms,
+  receive_reply_model b E P (JObj ms) = classify E P (JObj ms) /\
+  forall unit_out, proxy_model b unit_out E P (JObj ms) = proxy_out unit_out E P (JObj ms).
+Proof. exact object_frames_unchanged. Qed.
+Print Assumptions C04_object_frames_unchanged.
+
+(* ... so for ARBITRARY frames: an error (the method's or a service error) is reported only if the
+   frame is an object carrying an `error` member. *)
+Theorem C04_error_only_if_error_member :
+  forall E P v, derived_error_shape E ->
+  (exists e, receive_reply_model true E P v = MethodError e \/
+             receive_reply_model true E P v = VarlinkError e) ->
+  exists ms, v = JObj ms /\ has_member "error" ms.
+Proof. exact error_only_if_error_member. Qed.
+Print Assumptions C04_error_only_if_error_member.
+
 (* Non-vacuity: the corpus error types satisfy derived_error_shape; the hypotheses of the theorems
    hold on concrete frames and the outcomes are the four different ones. *)
 Example C04_shapes_nonvacuous :
